@@ -221,6 +221,9 @@ class SV(object):
     def __float__(self):
         raise NotModelled('float() of a symbolic value')
 
+    def __format__(self, spec):
+        return '<sym>'
+
     # -- arithmetic
     def _bin(self, o, op, rev=False):
         if isinstance(o, SV):
